@@ -242,6 +242,13 @@ def oracle_c14(sc):
         for mid in sc.pending_end:
             if mid in sc.received:
                 return ('the session thread has stopped but request %s is still in the pending table (never failed)' % mid, 'stopped_pending')
+        # ... and none of the requests the session had written was left waiting: its wait does not end (by its own timeout) after the worker's exit
+        xi = next((i for i, e in enumerate(effs) if e[1] == 'exit'), None)
+        for key, rpc in sc.rpcs:
+            o = sc.outcomes.get(key)
+            wi = next((i for i, e in enumerate(effs) if e[1] == 'waitres' and e[2] is getattr(rpc, '_event', None)), None)
+            if xi is not None and rpc.id in sc.received and o and o[0] == 'exc' and o[1] == 'TimeoutExpiredError' and (wi is None or wi > xi) and not spec.get('eager'):
+                return ('the session thread has stopped and request %s, which it had sent, was never failed: the caller waited out its timeout' % rpc.id, 'stopped_pending')
     answered = [a[1] for a in spec['server'] if a[0] in ('reply', 'dup')]
     killers = [a[0] for a in spec['server'] if a[0] in ('garbage', 'badutf8', 'reply_unknown', 'reply_noid')] + \
               ['dup' for k in set(answered) if answered.count(k) > 1]
@@ -408,6 +415,8 @@ def gen_spec(rng, pid):
             server = [a for a in server if a[0] == 'reply'][: max(0, nreq - 1)]; wf = None
     elif pid == 'C14' and rng.random() < 0.5:
         return gen_c14_history(rng)
+    elif pid == 'C14' and rng.random() < 0.3:
+        return gen_c14_end(rng)
     elif pid == 'C14':
         profile = rng.choice(['default', 'default', 'junos', 'sros', 'nexus'])
         answered = rng.sample(order, rng.randint(0, nreq))
@@ -451,6 +460,26 @@ def gen_spec(rng, pid):
     if reseed:
         d['reseed'] = reseed
     return d
+
+def gen_c14_end(rng, cut=None, how=None, base11=None):
+    """The END of a session with leftovers: requests are outstanding, the server answers some and then sends the beginning of
+    a frame that stops inside a character / after a stray 0xff (cut 0-4; 5 = decodable control); then the session ends -
+    the application closes it (after the octets were taken in, or racing with them), or the peer sends EOF / the read fails."""
+    clients = [[('rpc', rng.random() < 0.5) for _ in range(rng.choice([1, 1, 2]))] for _ in range(rng.choice([1, 2, 2]))]
+    nreq = sum(len(c) for c in clients)
+    order = list(range(nreq)); rng.shuffle(order)
+    k = rng.randint(0, nreq - 1)
+    server = [('reply', i) for i in order[:k]] + [('partial', order[k], rng.choice([0, 1, 2, 3, 4, 4, 5]) if cut is None else cut)]
+    how = how or rng.choice(['close', 'close', 'close_race', 'eof', 'err'])
+    if how in ('eof', 'err'):
+        server.append((how,))
+    else:
+        ops = ([('await_srv', len(server) - 1)] if how == 'close' else []) + [('close',)]
+        if rng.random() < 0.5 and not any(op[1] for op in clients[0]): clients[0] = clients[0] + ops       # the closing thread has asynchronous requests outstanding itself
+        else: clients.append(ops)
+    if rng.random() < 0.3: clients.append([('await_disc',), ('rpc', True)])
+    return dict(profile=rng.choice(['default', 'default', 'junos', 'huawei']), clients=clients, server=server, eager=False,
+                base11=(rng.random() < 0.5) if base11 is None else base11)
 
 def gen_c14_history(rng, profile=None):
     """History 'hostile / malformed message, then later requests' on one session, any of the 14 profiles: some requests
@@ -501,7 +530,9 @@ SMALL = {
             dict(profile='junos', base11=False, clients=[[('rpc', True), ('await_srv', 1), ('rpc', True)], [('rpc', False)]], server=[('reply', 0), ('hostile', 0), ('reply', 2)], eager=False),
             # malformed body behind a valid <notification> / <rpc-reply> start tag, with a consumer
             dict(profile='default', base11=True, clients=[[('rpc', False), ('await_srv', 2), ('rpc', True)], [('take', True), ('take', True)]],
-                 server=[('notif', 1), ('reply_bad', 0, 1), ('notif_bad', 52, 0), ('reply', 1)], eager=False)],
+                 server=[('notif', 1), ('reply_bad', 0, 1), ('notif_bad', 52, 0), ('reply', 1)], eager=False),
+            # the application closes the session while an unfinished, undecodable frame is (being) received and requests are outstanding
+            dict(profile='default', base11=True, clients=[[('rpc', False), ('close',)], [('rpc', True)]], server=[('partial', 0, 0)], eager=False)],
     'C03': [dict(profile='default', clients=[[('rpc', True)], [('rpc', True)]], server=[('reply', 1), ('reply', 0)], eager=False),
             dict(profile='junos', clients=[[('rpc', False)], [('rpc', True)]], server=[('notif', 1), ('reply', 0), ('reply', 1)], eager=False),
             dict(profile='default', clients=[[('rpc', True)], [('rpc', True)]], server=[('reply', 0)], eager=True),
@@ -545,6 +576,16 @@ def c14_sweep(quick=True):
             specs.append(dict(profile=prof, base11=b11, eager=False,
                               clients=[[('rpc', b11), ('await_srv', 0), ('rpc', True)], [('take', True)]],
                               server=[('reply_bad', 0, v), ('reply', 1), ('notif', 1)]))
+    # the end of a session with an unfinished frame in the buffer: every cut x both framings x every way the session ends
+    for cut in range(6):
+        for b11 in (False, True):
+            for hi, how in enumerate(('close', 'close_race', 'eof', 'err')):
+                if quick and how != 'close' and (cut + b11 + hi) % 2:
+                    continue
+                ops = ([('await_srv', 1)] if how == 'close' else []) + [('close',)]
+                specs.append(dict(profile='default', base11=b11, eager=False,
+                                  clients=[[('rpc', False), ('rpc', False)] + (ops if how.startswith('close') and cut % 2 else []), [('rpc', True)]] + ([ops] if how.startswith('close') and not cut % 2 else []),
+                                  server=[('reply', 1), ('partial', 0, cut)] + ([(how,)] if how in ('eof', 'err') else [])))
     return specs
 
 _weighted = []
